@@ -1,7 +1,9 @@
 //! h_core: drivers and replayers for the postcard crate (C01-C11, C13, C20).
 //! Every subcommand writes ndjson events; no expected value is computed here.
 mod acc;
+mod big_enum;
 mod common;
+mod corpus;
 mod depipe;
 mod fix;
 mod framede;
@@ -45,6 +47,7 @@ fn main() {
         "wire-exh16" => wire::run_exh16(&args),
         "wire-vec" => wire::run_vectors(&args),
         "fix" => fix::run(&args),
+        "corpus" => corpus::run(&args),
         "ser" => ser::run(&args),
         "depipe" => depipe::run(&args),
         "io" => io::run(&args),
